@@ -6,6 +6,7 @@ import (
 	"strings"
 
 	"github.com/google/go-tdx-guest/pcs"
+	pb "github.com/google/go-tdx-guest/proto/tdx"
 	"github.com/google/go-tdx-guest/verify"
 	"verif/sim/core"
 	"verif/sim/world"
@@ -226,7 +227,20 @@ func c04Run(r *core.Run) {
 			opts = longLived
 		}
 		raw := w.Quote.Bytes()
-		o := verifyRaw(raw, opts)
+		// in half of the events the caller parses once and hands the SAME message object to the verifier and,
+		// below, to the level-reporting API (what is remembered about "this quote" between the two calls
+		// must not replace the evaluation)
+		var sameMsg *pb.QuoteV4
+		if t.Bool() {
+			sameMsg, _ = parseMsg(raw)
+		}
+		var o core.Outcome
+		if sameMsg != nil {
+			o = verifyMsg(sameMsg, opts)
+			r.Probe("same_message_object_for_verdict_and_levels_api")
+		} else {
+			o = verifyRaw(raw, opts)
+		}
 		r.Eval()
 		modBranch := in.Tee[1] != 0
 		st := "none"
@@ -250,11 +264,42 @@ func c04Run(r *core.Run) {
 		case mv.Exp == world.MustAccept && !o.Accepted():
 			r.Violate("C04:rejected:"+errClass(o), "quote rejected although FMSPC/PCE-ID/SEAM identity match and the selected level %d%s is UpToDate: %s", mv.Level, tern(modBranch, fmt.Sprintf(" and module level %d", mv.Mod), ""), o.ErrText())
 		}
+		// a rejected platform stays rejected when, with revocation checking on as well, a CRL cannot be had:
+		// whatever the verifier does about the missing CRL, it does not drop the TCB evaluation
+		if mv.Exp == world.MustReject && !o.Panicked && t.Chance(1, 2) {
+			savedP, savedU := w.PCS.PckCrl[w.CAID], w.PCS.ByURL
+			kind := t.Draw(3)
+			switch kind {
+			case 0:
+				w.PCS.PckCrl[w.CAID] = &world.Endpoint{Err: fmt.Errorf("connection refused")}
+			case 1:
+				w.PCS.ByURL = map[string]*world.Endpoint{}
+				for _, k := range core.SortedKeys(savedU) {
+					w.PCS.ByURL[k] = &world.Endpoint{Err: fmt.Errorf("i/o timeout")}
+				}
+			case 2:
+				w.PCS.ByURL = map[string]*world.Endpoint{}
+				for _, k := range core.SortedKeys(savedU) {
+					w.PCS.ByURL[k] = &world.Endpoint{Body: []byte("<html>503 Service Unavailable</html>")}
+				}
+			}
+			o2 := verifyRaw(raw, worldOpts(w, O2))
+			w.PCS.PckCrl[w.CAID], w.PCS.ByURL = savedP, savedU
+			r.Eval()
+			r.Eventf("event %d: same platform, both options on, CRL unavailable (kind %d) -> %s", ev, kind, errClass(o2))
+			r.Fault("pcs:crl_unavailable_while_tcb_must_reject", true)
+			if o2.Accepted() {
+				r.Violate("C04:accepted-when-crl-unavailable:"+clauseKind(mv.Clause), "quote accepted with collateral and revocation checking on while a CRL could not be obtained, although the model says reject (%s) (world %s)", mv.Clause, w.Describe())
+			}
+		}
 		// the level-reporting API, through the same options value
 		if o.Panicked {
 			continue
 		}
 		m, perr := parseMsg(raw)
+		if sameMsg != nil {
+			m, perr = sameMsg, nil
+		}
 		if perr != nil {
 			continue
 		}
